@@ -45,7 +45,8 @@ class SetupCallVisitor(cst.CSTVisitor):
     def visit_Call(self, node: cst.Call) -> None:
         # TODO: only handle setup from setuptools, not others tho unlikely
         match node.func:
-            case cst.Name(value="setup"):
+            # `setup(...)` as well as `setuptools.setup(...)`
+            case cst.Name(value="setup") | cst.Attribute(attr=cst.Name(value="setup")):
                 visitor = SetupArgVisitor()
                 node.visit(visitor)
                 self.python_requires.extend(visitor.python_requires)
